@@ -1173,7 +1173,31 @@ func collisionSearch(f *core.Func, seeds []string) (string, string) {
 	}
 	gen("", maxLen)
 	strs = append(strs, "abcdefghi2zz", "12abcdefghi", "zz")
-	for arity := 1; arity <= 2; arity++ {
+	// arity 3 over a reduced set: strings of length <= 2 over the characters the encoder mentions plus one ordinary
+	// character (collisions that need a merge in one position to be offset by a split in another need three elements)
+	var special []string
+	for _, a := range alpha {
+		if a != "1" && a != "2" {
+			special = append(special, a)
+		}
+	}
+	var strs3 []string
+	strs3 = append(strs3, "")
+	for _, a := range special {
+		strs3 = append(strs3, a)
+		for _, b := range special {
+			strs3 = append(strs3, a+b)
+		}
+	}
+	full := strs
+	for arity := 1; arity <= 3; arity++ {
+		strs := full
+		if arity == 3 {
+			strs = strs3
+			if len(strs)*len(strs)*len(strs) > 400000 {
+				break
+			}
+		}
 		seen := map[string][]string{}
 		found := ""
 		bad := false
@@ -1209,7 +1233,7 @@ func collisionSearch(f *core.Func, seeds []string) (string, string) {
 			return found, "collision"
 		}
 	}
-	return "", fmt.Sprintf("no collision among tuples of arity 1-2 over %d strings", len(strs))
+	return "", fmt.Sprintf("no collision among tuples of arity 1-2 over %d strings and arity 3 over %d strings", len(strs), len(strs3))
 }
 
 // keyInjective decides, under the given rule id, that buildLabelValueKey is an
